@@ -148,6 +148,9 @@ def deep_state(obj):
         "nattr": [snap["nattr"][n] for n in snap["nodes"]],
         "eattr": [snap["eattr"][e] for e in snap["edges"]],
         "net": snap["net"], "frozen": fz, "next_auto_id": next_auto_id(obj),
+        # the raw counter: if a read moves it past occupied IDs, removing the edge that holds the
+        # old counter value and adding an edge gives a different automatic ID than without the read
+        "edge_uid_counter": repr(obj._edge_uid),
         "anomalies": [repr(a) for a in anomalies],
     }
 
